@@ -47,6 +47,10 @@ def gen_wq(rng, tier):
         if rng.random() < 0.25:
             # a session that never drained: both counters just below 2^32 (or 2^31)
             args.append(rng.choice([(1 << 32) - 2, (1 << 32) - 1, (1 << 31) - 1]))
+        if nxt > 2 and rng.random() < 0.3:
+            # one work item (mostly not the first) carries a NULL payload in the real code: the
+            # harness stores v - k, the runtime prints the data cells plus k (VR_BIAS)
+            env = dict(env, VR_BIAS=".data:%d" % rng.randrange(2, nxt))
         cases.append({"args": args, "env": env})
     return cases
 
